@@ -178,6 +178,16 @@ func keptStateRule(p *load.Program, run *report.Run, pkgs []string) {
 			inv[cell] = "reported by lazy-session-state-reset-by-every-init"
 		}
 	}
+	for cell, why := range ownCaches(p, run, pkgs) {
+		if _, listed := inv[cell]; listed {
+			continue
+		}
+		if why == "" {
+			inv[cell] = "made from the object's own configuration, the same in every session (own-cache-leaves-shared-fields-fresh)"
+		} else {
+			inv[cell] = "reported by own-cache-leaves-shared-fields-fresh"
+		}
+	}
 	lints.LazyState(p, run, pkgs, inv)
 }
 
